@@ -218,11 +218,20 @@ class Driver:
 def run_history(case):
     d = Driver(case["market_id"], case["tick"], case["mp0"])
     obs = []
-    for op in case["ops"]:
-        obs.append(d.do(op))
+    aborted = None
+    for i, op in enumerate(case["ops"]):
+        ob = d.do(op)
+        obs.append(ob)
+        # an exception that is not one of the documented refusals leaves the market in an unknown
+        # state: the history ends there (the monitors report the raise itself)
+        if isinstance(ob, E) and not (ob.code in (1, 2, 3, 9) or (ob.code == 4 and not d.m.is_running)):
+            aborted = i
+            break
+    if aborted is not None:
+        case = dict(case, ops=case["ops"][:aborted + 1])
     # agent-side view of each created object at the end
     views = [[o.order_id, o.volume, bool(o.is_canceled), o.placed_at, fr(o.price)] for o in d.objs]
-    return {"obs": obs, "logger": d.logger.stream, "views": views}
+    return {"obs": obs, "logger": d.logger.stream, "views": views, "aborted": aborted, "ops": case["ops"]}
 
 
 # --------------------------------------------------------------------------------------
@@ -285,8 +294,74 @@ def case_term(case, res):
 DYADIC_TICKS = [2.0, 1.0, 0.5, 0.25, 0.125]
 
 
+def gen_deep(rng):
+    """deep one-sided books with interior removals (cancel / expiry), then sweeps: exercises the
+    re-heapify duties of OrderBook._remove/_check_expired_orders and the rebuild after a round."""
+    tick = rng.choice(DYADIC_TICKS)
+    ref = rng.choice([100.0, 300.0, 1000.0])
+    mid = rng.randint(0, 3)
+    ops = [("tick", ref), ("run", True), ("qstate",)]
+    n_add = 0
+    time = 0
+    for rnd in range(rng.randint(1, 3)):
+        side_buy = rng.random() < 0.5
+        n = rng.randint(6, 18)
+        mine = []
+        for _ in range(n):
+            lvl = rng.randint(1, 12)
+            price = ref - lvl * tick if side_buy else ref + lvl * tick
+            ttl = rng.choice([None, None, 1, 2, 3])
+            ops.append(("add", rng.randint(0, 4), mid, side_buy, price, rng.choice([1, 2, 3]), ttl))
+            mine.append(n_add)
+            n_add += 1
+            if rng.random() < 0.3:
+                ops.append(("qstate",))
+        ops.append(("qstate",))
+        for _ in range(rng.randint(1, 4)):
+            g = rng.random()
+            if g < 0.6 and mine:
+                k = rng.choice(mine)
+                mine.remove(k)
+                ops.append(("cancel", k))
+                ops.append(("qstate",))
+            elif g < 0.85:
+                ops.append(("tick", ref))
+                time += 1
+                ops.append(("qstate",))
+            else:
+                # partial sweep by a small aggressive order
+                ops.append(("add", rng.randint(0, 4), mid, not side_buy, None, rng.choice([1, 2, 4]), None))
+                n_add += 1
+                ops.append(("qstate",))
+                ops.append(("exec",))
+                ops.append(("qstate",))
+        # the sweep
+        vol = rng.choice([5, 9, 15, 40])
+        if rng.random() < 0.5:
+            price = None
+        else:
+            price = ref - 13 * tick if not side_buy else ref + 13 * tick
+            if rng.random() < 0.5:
+                price = ref - rng.randint(2, 8) * tick if not side_buy else ref + rng.randint(2, 8) * tick
+        ops.append(("add", rng.randint(0, 4), mid, not side_buy, price, vol, rng.choice([None, 1])))
+        n_add += 1
+        ops.append(("qstate",))
+        ops.append(("exec",))
+        ops.append(("qstate",))
+        if rng.random() < 0.5:
+            ops.append(("tick", ref))
+            time += 1
+            ops.append(("qstate",))
+    ops.append(("qseries",))
+    ops.append(("qat", time))
+    ops.append(("qat", time + 1))
+    return {"market_id": mid, "tick": tick, "mp0": ref, "ops": ops, "mode": "deep"}
+
+
 def gen_history(rng, n_ops, mode=None):
-    mode = mode or rng.choice(["continuous", "continuous", "call", "mixed"])
+    mode = mode or rng.choice(["continuous", "continuous", "call", "mixed", "deep"])
+    if mode == "deep":
+        return gen_deep(rng)
     tick = rng.choice(DYADIC_TICKS)
     ref = rng.choice([100.0, 300.0, 8.0, 1000.0]) + tick * rng.randint(0, 7)
     mid = rng.randint(0, 3)
@@ -406,3 +481,182 @@ def gen_history(rng, n_ops, mode=None):
     ops.append(("qat", time))
     ops.append(("qat", time + 1))
     return {"market_id": mid, "tick": tick, "mp0": ref, "ops": ops, "mode": mode}
+
+
+# --------------------------------------------------------------------------------------
+# Suite interface (engine.py)
+# --------------------------------------------------------------------------------------
+import collections
+import json
+import os
+import engine
+
+
+def _tup(case):
+    c = dict(case)
+    c["ops"] = [tuple(o) for o in case["ops"]]
+    return c
+
+
+class SuiteM(engine.Suite):
+    name = "M"
+    imports = "Require Import Pams.Prelude Pams.Match Pams.Market."
+    runner = "run_case"
+    shard = 10
+
+    SIZES = {"quick": (220, [10, 25, 40]), "thorough": (6000, [10, 25, 40, 80]), "search": (60, [10, 25, 40])}
+
+    def generate(self, seed, tier):
+        n, lens = self.SIZES.get(tier, self.SIZES["quick"])
+        rng = random.Random(("M", seed, tier).__repr__())
+        cases = []
+        if tier != "search":
+            cdir = os.path.join(os.path.dirname(os.path.dirname(os.path.abspath(__file__))), "corpus", "M")
+            if os.path.isdir(cdir):
+                for f in sorted(os.listdir(cdir)):
+                    if f.endswith(".json"):
+                        cases.append(_tup(json.load(open(os.path.join(cdir, f)))))
+        for _ in range(n):
+            cases.append(gen_history(rng, rng.choice(lens)))
+        return cases
+
+    def load_case(self, obj):
+        return _tup(obj)
+
+    def run_impl(self, case):
+        return run_history(case)
+
+    def coq_term(self, case, res):
+        if case.get("stream", "dyadic") != "dyadic":
+            return None
+        c = dict(case, ops=res["ops"])
+        term, ops, exp = case_term(c, res)
+        inp = term[1:term.index(", (VL")]
+        return term, inp, exp
+
+    def owners(self, case, res, path, exp, model):
+        if not path:
+            return None
+        # map position in the (possibly filtered) op list back to the op kind
+        add_ids = []
+        kept = []
+        for op, ob in zip(res["ops"], res["obs"]):
+            if op[0] == "add":
+                add_ids.append((ob[1] if isinstance(ob, list) else None, op[2] != case["market_id"]))
+        for op in res["ops"]:
+            if op_lit(op, add_ids) is not None:
+                kept.append(op)
+        if path[0] >= len(kept):
+            return None
+        k = kept[path[0]][0]
+        sub = path[1] if len(path) > 1 else None
+        if k == "add":
+            return ["C19", "C04"] if sub == 6 else ["C04"]
+        if k in ("cancel", "resubmit", "cancel_foreign", "cancel_unsubmitted"):
+            return ["C04"]
+        if k == "tick":
+            return ["C04"]
+        if k == "exec":
+            own = ["C01", "C02", "C03", "C04"]
+            return own
+        if k == "qstate":
+            if sub in (0, 1):
+                return ["C06"]
+            if sub in (2, 3, 6, 7):
+                return ["C02", "C04"]
+            if sub is None:
+                return ["C02", "C04", "C06", "C08"]
+            return ["C08"]
+        if k in ("qat", "qseries"):
+            return ["C06", "C08"]
+        return None
+
+    def monitors(self):
+        import monitors_m
+
+        def wrap(fn):
+            return lambda c, r: fn(monitors_m.Trace(c, r))
+        return {k: wrap(v) for k, v in monitors_m.MONITORS.items()}
+
+    def shrink(self, case, still_fails):
+        ops = list(case["ops"])
+
+        def without(ops, i):
+            op = ops[i]
+            if op[0] == "add":
+                a = sum(1 for o in ops[:i] if o[0] == "add")
+                out = []
+                for j, o in enumerate(ops):
+                    if j == i:
+                        continue
+                    if o[0] in ("cancel", "resubmit"):
+                        if o[1] == a:
+                            continue
+                        if o[1] > a:
+                            o = (o[0], o[1] - 1)
+                    out.append(o)
+                return out
+            return ops[:i] + ops[i + 1:]
+        cur = dict(case, ops=ops)
+        if not still_fails(cur):
+            return case
+        changed = True
+        rounds = 0
+        while changed and rounds < 4:
+            changed = False
+            rounds += 1
+            i = len(cur["ops"]) - 1
+            while i >= 1:
+                cand = dict(cur, ops=without(cur["ops"], i))
+                try:
+                    if cand["ops"] and still_fails(cand):
+                        cur = cand
+                        changed = True
+                except Exception:  # noqa
+                    pass
+                i -= 1
+        return cur
+
+    def variants(self, case, rng):
+        ops = case["ops"]
+        for cut in range(len(ops), 1, -max(1, len(ops) // 15)):
+            yield dict(case, ops=ops[:cut] + [("qstate",)])
+
+    def nontrivial_key(self, case, res):
+        nf = sum(len(ob) for op, ob in zip(res["ops"], res["obs"]) if op[0] == "exec" and isinstance(ob, list))
+        nx = sum(len(ob) for op, ob in zip(res["ops"], res["obs"]) if op[0] == "tick" and isinstance(ob, list))
+        if nf + nx == 0:
+            return None
+        return hash(repr(res["ops"]))
+
+    def describe(self, case, res):
+        return {"mode": case.get("mode"), "tick": case["tick"], "mp0": case["mp0"], "ops": [list(o) for o in res["ops"][:25]],
+                "first_observations": res["obs"][:6]}
+
+    def stats(self, cases, results):
+        ops = collections.Counter()
+        errs = collections.Counter()
+        depth_at_removal = collections.Counter()
+        fills_per_round = collections.Counter()
+        chunk_cross = 0
+        modes = collections.Counter()
+        for c, r in zip(cases, results):
+            modes[c.get("mode")] += 1
+            t = -1
+            for op, ob in zip(r["ops"], r["obs"]):
+                ops[op[0]] += 1
+                if isinstance(ob, E):
+                    errs[ob.code] += 1
+                if op[0] == "exec" and isinstance(ob, list):
+                    fills_per_round[min(len(ob), 6)] += 1
+                if op[0] == "tick":
+                    t += 1
+                    if t in (100, 200):
+                        chunk_cross += 1
+                    if isinstance(ob, list) and ob:
+                        depth_at_removal["expiry"] += len(ob)
+        return {"key_rule": "distinct op lists with at least one fill or expiry",
+                "op_histogram": dict(ops), "error_kinds": {str(k): v for k, v in errs.items()},
+                "fills_per_round(capped at 6)": {str(k): v for k, v in sorted(fills_per_round.items())},
+                "expiries": depth_at_removal.get("expiry", 0), "storage_chunk_crossings": chunk_cross,
+                "modes": dict(modes)}
